@@ -93,7 +93,7 @@ var modes = []string{"parse", "validate"}
 
 func TestC20(t *testing.T) {
 	h := hh.Start(t, "C20",
-		"single-test schemas; exhaustive sweeps: ContainsUpper/Digit/Special (and their Not forms) over every rune U+0000..U+02FF plus class-edge pairs; string Min/Max/Len for n in 0..6 over subjects of byte length 0..8 incl. multi-byte runes; numeric GT/GTE/LT/LTE/EQ over all pairs of per-width boundary sets incl. NaN/Inf/-0; slice Min/Max/Len/Contains (incl. pointer elements with pointer needles); the same tests on user-defined named types (StringSchema[T], NumberSchema[T], BoolSchema[T]) with Required on and off; time After/Before/EQ over {t-1ns,t,t+1ns} x zones; random: OneOf/Contains/HasPrefix/HasSuffix/Match; grammar classes: Email (WHATWG recogniser, generated members and single-edit near misses), UUID (8-4-4-4-12 hex, single edits), URL (only strings certainly with/without scheme+host; every combination of port, path, query and fragment after the authority). Non-trivial = subject within one unit of the parameter, a class-edge or multi-byte rune, a generated grammar member or near miss; every enumerated cell counts once",
+		"single-test schemas; exhaustive sweeps: ContainsUpper/Digit/Special (and their Not forms) over every rune U+0000..U+02FF plus class-edge pairs; string Min/Max/Len for n in 0..6 over subjects of byte length 0..8 incl. multi-byte runes; numeric GT/GTE/LT/LTE/EQ over all pairs of per-width boundary sets incl. NaN/Inf/-0; slice Min/Max/Len/Contains (incl. pointer elements with pointer needles); the same tests on user-defined named types (StringSchema[T], NumberSchema[T], BoolSchema[T]) with Required on and off; time After/Before/EQ over {t-1ns,t,t+1ns} x zones and over all pairs of eleven instants from year 1 to 9999 (incl. both ends of the int64-nanosecond range); random: OneOf/Contains/HasPrefix/HasSuffix/Match; grammar classes: Email (WHATWG recogniser, generated members and single-edit near misses), UUID (8-4-4-4-12 hex, single edits), URL (only strings certainly with/without scheme+host; every combination of port, path, query and fragment after the authority). Non-trivial = subject within one unit of the parameter, a class-edge or multi-byte rune, a generated grammar member or near miss; every enumerated cell counts once",
 		"issue present iff the reference predicate is false, in Parse and Validate; absent-looking subjects are supplied through Default (which the statement says is tested like any other value)",
 		"UUID version nibble and URL strings outside the certain classes are not asserted either way")
 	defer h.Finish()
@@ -259,6 +259,23 @@ func TestC20(t *testing.T) {
 							yield(c20Case{Kind: model.KTime, Test: model.TestSpec{Name: name, Arg: &arg}, Subject: model.Time(base.Add(d).In(zs1)), Mode: mode})
 						}
 					}
+				}
+			}
+		}
+		// instants far from the present: the comparisons are time.After/Before/Equal over the whole range of time.Time
+		// (year 1 ... 9999), also where a count of nanoseconds since 1970 no longer fits 64 bits (before 1678, after 2262)
+		far := []time.Time{
+			time.Date(1, 1, 1, 0, 0, 1, 0, time.UTC), time.Date(1600, 6, 1, 12, 0, 0, 0, time.UTC),
+			time.Date(1677, 9, 21, 0, 12, 43, 145224191, time.UTC), time.Date(1677, 9, 21, 0, 12, 43, 145224193, time.UTC),
+			time.Date(1969, 12, 31, 23, 59, 59, 999999999, time.UTC), time.Date(1970, 1, 1, 0, 0, 0, 0, time.UTC), base,
+			time.Date(2262, 4, 11, 23, 47, 16, 854775806, time.UTC), time.Date(2262, 4, 11, 23, 47, 16, 854775808, time.UTC),
+			time.Date(2500, 1, 1, 0, 0, 0, 0, time.UTC), time.Date(9999, 12, 31, 23, 59, 59, 999999999, time.UTC),
+		}
+		for i, a := range far {
+			for j, b := range far {
+				for _, name := range []string{"after", "before", "eq"} {
+					arg := model.Time(b)
+					yield(c20Case{Kind: model.KTime, Test: model.TestSpec{Name: name, Arg: &arg}, Subject: model.Time(a), Mode: modes[(i+j)%len(modes)]})
 				}
 			}
 		}
